@@ -1,6 +1,7 @@
 """S rules: run-time structure of the schedule (stage.rs / stages.rs / World::run_schedule)."""
 from .engine import rule, Result
 from .mir import *
+from . import pathsem
 
 STAGE_T = 'system::schedule::stage::Stage'
 STAGES_T = 'system::schedule::stages::Stages'
@@ -192,12 +193,22 @@ def s1_exactly_once(prog):
     return r
 
 
+def ev_is_task_run(e):
+    return e['f'].get('trait') == TASK_T and e['name'] == 'run'
+
+
+def ev_is_join(e):
+    return is_join({'path': e['path']})
+
+
 @rule('S2', props=['C07', 'C08'], floor=3, configs=('all',))
 def s2_flag_iff_ran(prog):
-    """run_add_ons: the first component of the returned tuple is `true` exactly on the path that forks
-    the task with rayon::join, `false` on all others; every path continues with the tail's
-    run_add_ons; admission (S3) requires BOTH compatible resource claims and compatible archetype
-    claims, and the fork receives the merged resource claims and the updated claim map."""
+    """run_add_ons, decided per CFG path: the first component of the returned tuple is `true` exactly on
+    the paths that run the task (inside a rayon::join, exactly once), `false` on all others; every path
+    offers the remaining tasks to the tail's run_add_ons exactly once; admission (S3): a path that runs
+    the task has established BOTH a successful try_merge of this task's resource claims with the incoming
+    ones and a `true` from query_archetype_identifiers on the incoming claim map, and its tail call
+    receives the merged resource claims and that same claim map."""
     r = Result()
     imps = stage_cons_impl(prog)
     if len(imps) != 1:
@@ -205,229 +216,306 @@ def s2_flag_iff_ran(prog):
         return r
     imp = imps[0]
     f = method(prog, imp, 'run_add_ons')
-    body = f.body
     key = 'Stage::run_add_ons for (&mut T, U)'
-    joins = [(b, t) for b, t in body.calls(is_join)]
-    if len(joins) != 1:
-        r.viol('S2', key + '/join-count', f.loc(), 'run_add_ons must fork at most once (found %d joins)' % len(joins))
+    E = pathsem.analyse(prog, f)
+    rets = [p for p in E.paths if p.ended == 'return']
+    if E.truncated or not rets:
+        r.viol('S2', key + '/not-analysable', f.loc(), 'path enumeration cut off')
         return r
-    jb, jt = joins[0]
-    r.inst(key + ': join at bb%d' % jb)
-    # fn-level result tuples
-    for b, i, s in body.stmts():
-        if s['k'] == 'assign' and s['place']['l'] == 0 and s['rv']['k'] == 'agg' and s['rv']['agg'] == 'tuple' and s['rv']['ops']:
-            c = op_const(s['rv']['ops'][0])
-            if c is None or c.get('val') != 0:
-                r.viol('S2', key + '/flag-true-without-run', f.loc(s['ln']), 'a path that does not run the task reports it as run: the task would be skipped in its own stage')
-            if jb in body.reachable(0) and b in body.reachable_after(jb):
-                r.viol('S2', key + '/flag-false-after-run', f.loc(s['ln']), 'a path that ran the task reports it as not run: the task would run twice')
-    ca, ca_agg = closure_of(prog, body, jt['args'][0])
-    cb, cb_agg = closure_of(prog, body, jt['args'][1])
-    if ca is None or cb is None:
-        r.viol('S2', key + '/join-args', f.loc(jt['ln']), 'join arguments are not in-place closures')
-        return r
-    task_c, rest_c, rest_agg = (cb, ca, ca_agg) if calls_named(cb, is_task_run) else (ca, cb, cb_agg)
-    if len(calls_named(task_c, is_task_run)) != 1 or calls_named(rest_c, is_task_run):
-        r.viol('S2', key + '/task-run-count', f.loc(jt['ln']), 'the fork must run the task exactly once')
-    r.inst(key + ': rest closure result tuple')
-    ok_true = False
-    for b, i, s in rest_c.body.stmts():
-        if s['k'] == 'assign' and s['place']['l'] == 0 and s['rv']['k'] == 'agg' and s['rv']['agg'] == 'tuple' and s['rv']['ops']:
-            c = op_const(s['rv']['ops'][0])
-            if c is not None and c.get('val') == 1:
-                ok_true = True
-            else:
-                r.viol('S2', key + '/flag-false-on-run', rest_c.loc(s['ln']), 'the forked path must report the task as run')
-    if not ok_true:
-        r.viol('S2', key + '/flag-missing', rest_c.loc(), 'the forked path does not report the task as run')
-    # every path calls the tail's run_add_ons exactly once (fn-level on non-join paths, closure on join path)
-    tails = [(b, t) for b, t in body.calls(lambda c: c.get('trait') == STAGE_T and c['name'] == 'run_add_ons')]
-    ctails = [(b, t) for b, t in rest_c.body.calls(lambda c: c.get('trait') == STAGE_T and c['name'] == 'run_add_ons')]
-    if len(ctails) != 1:
-        r.viol('S2', key + '/rest-tail', rest_c.loc(), 'forked path must continue with the tail\'s run_add_ons exactly once')
-    if not body.must_pass(0, [jb] + [b for b, _ in tails], body.return_blocks()):
-        r.viol('S2', key + '/tail-skippable', f.loc(), 'a path returns without offering the remaining tasks of the next stage as add-ons')
-    # ---- S3 admission
-    tm = [(b, t) for b, t in body.calls(lambda c: c['name'] == 'try_merge' and 'claim' in c['path'])]
-    qa = [(b, t) for b, t in body.calls(lambda c: c['name'] == 'query_archetype_identifiers')]
-    r.inst(key + ': admission guards try_merge=%d query=%d' % (len(tm), len(qa)))
-    if len(tm) != 1:
-        r.viol('S3', key + '/no-resource-check', f.loc(), 'add-on admission does not check resource claims with try_merge')
-    else:
-        tb_, tt_ = tm[0]
-        # Some edge
-        d = tt_['dest']['l']
-        if len(body.assigns_to(d)) != 1 or not body.must_pass(0, [tb_], [jb]):
-            r.viol('S3', key + '/resource-check-bypassed', f.loc(tt_['ln']), 'a path reaches the early start without merging resource claims through try_merge (the checked Option has another source)')
-        some_edge = None
-        for b in range(body.n):
-            t = body.term(b)
-            if t['k'] == 'switch':
-                dl = op_local(t['discr'])
-                dd = single_def(body, dl) if dl is not None else None
-                if dd and dd[0] == 'assign' and dd[3]['rv']['k'] == 'discr' and dd[3]['rv']['place']['l'] == d:
-                    if 1 in t['values']:
-                        some_edge = (b, t['targets'][t['values'].index(1)])
-        if some_edge is None or not body.edge_dominates(some_edge, jb):
-            r.viol('S3', key + '/fork-not-guarded-by-resources', f.loc(jt['ln']), 'the early start is not guarded by a successful merge of resource claims: a task could start while a conflicting resource is in use')
-        # operands: this task's claims() and the incoming claims
-        srcs = set()
-        for x in tt_['args']:
-            nm = receiver_name(prog, body, x)
-            l = op_local(x)
-            dd = single_def(body, access_of_local(body, l).root) if l is not None else None
-            if nm and nm.startswith('resource_claims'):
-                srcs.add('incoming')
-            elif dd and dd[0] == 'call' and dd[2]['f']['name'] == 'claims':
-                srcs.add('task')
-        if srcs != {'incoming', 'task'}:
-            r.viol('S3', key + '/resource-check-operands', f.loc(tt_['ln']), 'resource admission must merge the running claims with this task\'s resource claims (got %s)' % sorted(srcs))
-        # closure receives the merged claims (payload of Some)
-        if rest_agg is not None:
-            merged_locals = set()
-            for b, i, s in body.stmts():
-                if s['k'] == 'assign' and s['rv']['k'] == 'use':
-                    p = op_place(s['rv']['op'])
-                    if p and p['l'] == d and p['p']:
-                        merged_locals.add(s['place']['l'])
-            merged_locals = derived(body, merged_locals, through_calls=False) if merged_locals else merged_locals
-            got = [op_local(o) for o in rest_agg['ops']]
-            if not (merged_locals & set(got)):
-                r.viol('S3', key + '/merged-resources-not-forwarded', f.loc(jt['ln']), 'the forked path does not carry the merged resource claims: later add-ons would not see this task\'s resources')
-    if len(qa) != 1:
-        r.viol('S3', key + '/no-archetype-check', f.loc(), 'add-on admission does not check archetype claims')
-    else:
-        qb, qt = qa[0]
-        cl = qt['dest']['l']
-        ok = False
-        for sb_, t_true, t_false in bool_switches(body, cl):
-            if body.edge_dominates((sb_, t_true), jb):
-                ok = True
-        if not ok:
-            r.viol('S3', key + '/fork-not-guarded-by-archetypes', f.loc(jt['ln']), 'the early start is not guarded by compatible archetype claims')
-        # map forwarded: closure captures the same local that was passed &mut
-        ml = normalize_access(access_of_place(body, op_place(qt['args'][1])))
-        if rest_agg is not None:
-            got = [op_local(o) for o in rest_agg['ops']]
-            if ml.root not in got:
-                r.viol('S3', key + '/updated-map-not-forwarded', f.loc(jt['ln']), 'the forked path does not carry the updated claim map')
+    done = set()
+
+    def once(rule, k, ln, msg):
+        if k not in done:
+            done.add(k)
+            r.viol(rule, key + '/' + k, f.loc(ln), msg)
+    body = f.body
+    p_map = body.arg_local('borrowed_archetypes')
+    p_res = body.arg_local('resource_claims')
+    n_run = 0
+    for p in rets:
+        joins = p.calls(ev_is_join)
+        runs = p.calls(ev_is_task_run)
+        tails = p.calls(lambda e: e['f'].get('trait') == STAGE_T and e['name'] == 'run_add_ons')
+        ret = p.ret
+        flag = ret[4][0] if isinstance(ret, tuple) and ret[0] == 'agg' and ret[1] == 'tuple' and len(ret[4]) == 2 else None
+        if len(joins) > 1:
+            once('S2', 'join-count', joins[1]['ln'], 'run_add_ons must fork at most once per path')
+        if len(runs) > 1 or (runs and not joins):
+            once('S2', 'task-run-count', runs[0]['ln'], 'the fork must run the task exactly once (and only as one side of the join)')
+        if joins and not runs:
+            once('S2', 'task-run-count', joins[0]['ln'], 'the fork must run the task exactly once')
+        if flag not in (('c', 0), ('c', 1)):
+            once('S2', 'flag-missing', None, 'cannot see the has-run flag returned by a path (%s)' % pathsem.tstr(ret))
+        elif runs and flag == ('c', 0):
+            once('S2', 'flag-false-on-run', runs[0]['ln'], 'a path that ran the task reports it as not run: the task would run twice')
+        elif not runs and flag == ('c', 1):
+            once('S2', 'flag-true-without-run', None, 'a path that does not run the task reports it as run: the task would be skipped in its own stage')
+        if len(tails) != 1:
+            once('S2', 'tail-skippable' if not tails else 'rest-tail', None, 'every path must offer the remaining tasks of the next stage to the tail\'s run_add_ons exactly once (found %d)' % len(tails))
+        if not runs:
+            continue
+        n_run += 1
+        r.inst(key + ': path running the task (join at line %s)' % (joins[0]['ln'] if joins else '?'))
+        # ---- S3 admission on this path
+        tms = [e for e in p.calls(lambda e: e['name'] == 'try_merge' and 'claim' in e['path']) if p.lookup(('discr', e['ret'])) == 1]
+        good_tm = None
+        for e in tms:
+            srcs = set()
+            for v in e['vals']:
+                if isinstance(v, tuple) and v[0] == 'call' and v[1].endswith('::claims'):
+                    srcs.add('task')
+                if pathsem.strip_refs(v) == ('p', p_res, 'resource_claims'):
+                    srcs.add('incoming')
+            if srcs == {'incoming', 'task'}:
+                good_tm = e
+        if not p.calls(lambda e: e['name'] == 'try_merge' and 'claim' in e['path']):
+            once('S3', 'no-resource-check', None, 'add-on admission does not check resource claims with try_merge')
+        elif not tms:
+            once('S3', 'fork-not-guarded-by-resources', joins[0]['ln'] if joins else None, 'the early start is not guarded by a successful merge of resource claims: a task could start while a conflicting resource is in use')
+        elif good_tm is None:
+            once('S3', 'resource-check-operands', tms[0]['ln'], 'resource admission must merge the running claims with this task\'s resource claims')
+        qas = [e for e in p.calls(lambda e: e['name'] == 'query_archetype_identifiers')]
+        good_q = [e for e in qas if p.lookup(e['ret']) is True and any(pathsem.strip_refs(v) == ('p', p_map, 'borrowed_archetypes') for v in e['vals'])]
+        if not qas:
+            once('S3', 'no-archetype-check', None, 'add-on admission does not check archetype claims')
+        elif not good_q:
+            once('S3', 'fork-not-guarded-by-archetypes', joins[0]['ln'] if joins else None, 'the early start is not guarded by compatible archetype claims')
+        if good_tm is not None and joins and not (joins[0]['i'] > good_tm['i']):
+            once('S3', 'resource-check-bypassed', good_tm['ln'], 'the task is forked before the resource claims were merged')
+        if good_q and joins and not (joins[0]['i'] > good_q[0]['i']):
+            once('S3', 'fork-not-guarded-by-archetypes', joins[0]['ln'], 'the task is forked before the archetype claims were checked')
+        if tails and good_tm is not None:
+            merged = ('f', ('down', good_tm['ret'], 'Some', 1), 0, 'core::option::Option')
+            if not any(pathsem.strip_refs(v) == merged for v in tails[0]['vals']):
+                once('S3', 'merged-resources-not-forwarded', tails[0]['ln'], 'the forked path does not carry the merged resource claims: later add-ons would not see this task\'s resources')
+        if tails and not any(pathsem.strip_refs(v) == ('p', p_map, 'borrowed_archetypes') for v in tails[0]['vals']):
+            once('S3', 'updated-map-not-forwarded', tails[0]['ln'], 'the forked path does not carry the updated claim map')
+    r.inst(key + ': %d returning paths' % len(rets))
+    r.inst(key + ': flags consistent on %d paths' % len(rets))
+    if not n_run:
+        once('S2', 'join-count', None, 'no path of run_add_ons runs the task early')
     return r
+
+
+INSERTERS = ('insert', 'insert_unique_unchecked', 'insert_with_hasher', 'insert_hashed_nocheck', 'insert_entry', 'or_insert', 'or_insert_with', 'try_insert', 'extend',
+             'or_default', 'or_insert_with_key', 'and_modify', 'replace_entry', 'replace_entry_with', 'and_replace_entry_with')
+
+
+def _is_claim_map_call(e):
+    a = e['f'].get('args', [])
+    if 'hashbrown' in e['path']:
+        return any(is_adt(x, 'archetype::identifier::IdentifierRef') for x in a)
+    # trait methods (Extend::extend, FromIterator, IndexMut ...) whose Self is a claim map
+    return bool(a) and a[0].get('k') == 'adt' and a[0]['path'].startswith('hashbrown::') and ty_mentions(a[0], lambda n: is_adt(n, 'archetype::identifier::IdentifierRef'))
+
+
+def _merge_of(p, v):
+    """If value term v is the result of merging claims: -> (kind, operands) else None."""
+    v = pathsem.strip_refs(v)
+    # payload of try_merge(..) known to be Some on this path
+    if isinstance(v, tuple) and v[0] == 'f' and isinstance(v[1], tuple) and v[1][0] == 'down' and v[1][2] == 'Some':
+        c = v[1][1]
+        if isinstance(c, tuple) and c[0] == 'call' and c[1].endswith('::try_merge'):
+            return 'try_merge', c[2]
+    if isinstance(v, tuple) and v[0] == 'call' and v[1].endswith('::merge_unchecked'):
+        return 'merge_unchecked', v[2]
+    if isinstance(v, tuple) and v[0] == 'call' and v[1].endswith('::try_merge'):
+        return None
+    return None
+
+
+def claim_map_writes(p):
+    """All writes into claim maps on one path, classified: 'vacant' | 'merged' (with the merge kind) |
+    'overwrite' (occupied entry replaced by something not merged from its previous value) | 'blind'."""
+    out = []
+    S = pathsem.strip_refs
+
+    def refers(operands, old):
+        old = S(old)
+        return any(S(o) == old or pathsem.mentions(o, lambda t: t == old) for o in operands)
+    for e in p.events:
+        if e['k'] == 'call' and _is_claim_map_call(e) and e['name'] in INSERTERS:
+            fp = e['path']
+            w = {'ln': e['ln'], 'name': e['name'], 'where': fp.split('hashbrown::')[-1].split('::<')[0] + '::' + e['name'], 'i': e['i'], 'fn': e['fn'], 'map': None, 'merge': None}
+            if 'VacantEntry' in fp and e['name'] == 'insert':
+                w['kind'] = 'vacant'
+                ent = S(e['vals'][0])
+                w['map'] = ent
+            elif 'OccupiedEntry' in fp and e['name'] == 'insert':
+                ent = S(e['vals'][0])
+                m = _merge_of(p, e['args'][1])
+                olds = [g['ret'] for g in p.calls(lambda g: 'OccupiedEntry' in g['path'] and g['name'] in ('get', 'get_mut') and S(g['vals'][0]) == ent and g['i'] < e['i'])]
+                if m and any(refers(m[1], o) for o in olds):
+                    w['kind'], w['merge'] = 'merged', m[0]
+                else:
+                    w['kind'] = 'overwrite'
+            elif fp.startswith('hashbrown::HashMap') and e['name'] == 'insert' and len(e['args']) >= 3:
+                mp, key = S(e['vals'][0]), S(e['vals'][1])
+                w['map'] = mp
+                looks = [g for g in p.calls(lambda g: g['path'].startswith('hashbrown::HashMap') and g['name'] in ('get', 'get_mut', 'contains_key', 'get_key_value') and g['i'] < e['i']
+                                            and S(g['vals'][0]) == mp and S(g['vals'][1]) == key)]
+                # no other write to this map between the lookup and the insert
+                kind = 'blind'
+                if looks:
+                    g = looks[-1]
+                    if g['name'] == 'contains_key':
+                        tv = p.lookup(g['ret'])
+                        if tv is False:
+                            kind = 'vacant'
+                        elif tv is True:
+                            kind = 'overwrite'
+                    else:
+                        d = p.lookup(('discr', g['ret']))
+                        if d == 0:
+                            kind = 'vacant'
+                        elif d == 1:
+                            old = ('f', ('down', g['ret'], 'Some', 1), 0, 'core::option::Option')
+                            m = _merge_of(p, e['args'][2])
+                            if m and refers(m[1], old):
+                                kind, w['merge'] = 'merged', m[0]
+                            else:
+                                kind = 'overwrite'
+                w['kind'] = kind
+            else:
+                w['kind'] = 'blind'
+            out.append(w)
+        elif e['k'] == 'store':
+            # *existing = merged, existing = payload of HashMap::get_mut / OccupiedEntry::get_mut / into_mut
+            root = S(e['loc'])
+            src = None
+            if isinstance(root, tuple) and root[0] == 'f' and isinstance(root[1], tuple) and root[1][0] == 'down' and root[1][2] == 'Some':
+                c = root[1][1]
+                if isinstance(c, tuple) and c[0] == 'call' and c[1].startswith('hashbrown::HashMap') and c[1].endswith('::get_mut'):
+                    src = root
+            if isinstance(root, tuple) and root[0] == 'call' and 'OccupiedEntry' in root[1] and root[1].rsplit('::', 1)[-1] in ('get_mut', 'into_mut'):
+                src = root
+            if src is None:
+                continue
+            # only claim maps
+            ce = [g for g in p.calls(lambda g: g.get('ret') is not None and pathsem.mentions(src, lambda t: t == g['ret']) and 'hashbrown' in g['path'])]
+            if not any(_is_claim_map_call(g) for g in ce):
+                continue
+            m = _merge_of(p, e['value'])
+            w = {'ln': e['ln'], 'name': 'store', 'where': 'HashMap::get_mut/store', 'i': e['i'], 'fn': None, 'map': None, 'merge': None}
+            if m and refers(m[1], src):
+                w['kind'], w['merge'] = 'merged', m[0]
+            else:
+                w['kind'] = 'overwrite'
+            out.append(w)
+    return out
 
 
 @rule('S3q', props=['C08', 'C07'], floor=1, configs=('all',))
 def s3_query_archetype_identifiers(prog):
-    """query_archetype_identifiers returns true only after every claimed archetype of the task was either
-    inserted (vacant) or successfully try_merge-d (occupied), returns false on the first conflict, and
-    commits the merged map to the caller only on the true path."""
+    """query_archetype_identifiers, per CFG path: every path on which a try_merge of claims failed returns
+    false; every occupied entry is overwritten only with the successful try_merge of its previous claims
+    (never merge_unchecked, never blindly); a path returning true has gone through the end of the claims
+    iteration and commits a map to the caller; a path returning false leaves the caller's map untouched."""
     r = Result()
     fs = [f for f in prog.fns.values() if f.path == 'system::schedule::stage::query_archetype_identifiers']
     if len(fs) != 1:
         r.viol('S3q', 'missing', '-', 'query_archetype_identifiers not found')
         return r
     f = fs[0]
-    body = f.body
     key = 'query_archetype_identifiers'
     r.inst(key)
-    tm = [(b, t) for b, t in body.calls(lambda c: c['name'] == 'try_merge')]
-    if len(tm) != 1:
-        r.viol('S3q', key + '/no-try-merge', f.loc(), 'occupied entries must be merged with try_merge (conflict detection)')
+    E = pathsem.analyse(prog, f, max_paths=20000)
+    rets = [p for p in E.paths if p.ended == 'return']
+    if E.truncated or not rets:
+        r.viol('S3q', key + '/not-analysable', f.loc(), 'path enumeration cut off')
         return r
-    tb, tt = tm[0]
-    d = tt['dest']['l']
-    none_t = some_t = None
-    for b in range(body.n):
-        t = body.term(b)
-        if t['k'] == 'switch':
-            dl = op_local(t['discr'])
-            dd = single_def(body, dl) if dl is not None else None
-            if dd and dd[0] == 'assign' and dd[3]['rv']['k'] == 'discr' and dd[3]['rv']['place']['l'] == d and 1 in t['values']:
-                some_t = t['targets'][t['values'].index(1)]
-                none_t = t['otherwise']
-                sw_b = b
-    if none_t is None:
-        r.viol('S3q', key + '/result-unchecked', f.loc(tt['ln']), 'result of try_merge is not inspected')
-        return r
-    # returns: assignments to _0
-    rets = [(b, s) for b, i, s in body.stmts() if s['k'] == 'assign' and s['place']['l'] == 0 and not s['place']['p']]
-    true_b = [b for b, s in rets if op_const(s['rv'].get('op', {})) and op_const(s['rv']['op']).get('val') == 1]
-    false_b = [b for b, s in rets if op_const(s['rv'].get('op', {})) and op_const(s['rv']['op']).get('val') == 0]
-    # conflict edge must lead to false without any path to a true return
-    nr = body.reachable(none_t)
-    if any(b in nr for b in true_b) or not any(b in nr for b in false_b):
-        r.viol('S3q', key + '/conflict-not-refused', f.loc(tt['ln']), 'a failed try_merge (conflicting claims) does not make the function return false')
-    # true return only after loop exit: the loop's `next` None edge dominates it
-    nx = [(b, t) for b, t in body.calls(lambda c: c['path'] == 'core::iter::Iterator::next')]
-    if len(nx) != 1:
-        r.viol('S3q', key + '/loop', f.loc(), 'expected exactly one iteration over the task\'s archetype claims')
-        return r
-    nb, nt = nx[0]
-    nd = nt['dest']['l']
-    none_edge = None
-    for b in range(body.n):
-        t = body.term(b)
-        if t['k'] == 'switch':
-            dl = op_local(t['discr'])
-            dd = single_def(body, dl) if dl is not None else None
-            if dd and dd[0] == 'assign' and dd[3]['rv']['k'] == 'discr' and dd[3]['rv']['place']['l'] == nd and 0 in t['values']:
-                none_edge = (b, t['targets'][t['values'].index(0)])
-    for b in true_b:
-        if none_edge is None or not body.edge_dominates(none_edge, b):
-            r.viol('S3q', key + '/true-before-all-checked', f.loc(), 'returns true before every claimed archetype has been checked')
-    # commit: write to *borrowed_archetypes only dominated by loop exit
-    for b, i, s in body.stmts():
-        if s['k'] == 'assign' and s['place']['p'] == ['*'] and body.local_name(s['place']['l']) == 'borrowed_archetypes' and not body.blocks[b]['cleanup']:
-            if none_edge is None or not body.edge_dominates(none_edge, b):
-                r.viol('S3q', key + '/commit-on-conflict', f.loc(s['ln']), 'the caller\'s claim map is updated on a path that found a conflict')
-    # the iterated claims come from query_archetype_claims of this task
+    done = set()
+
+    def once(k, ln, msg):
+        if k not in done:
+            done.add(k)
+            r.viol('S3q', key + '/' + k, f.loc(ln), msg)
+    pm = f.body.arg_local('borrowed_archetypes')
+    param = ('p', pm, 'borrowed_archetypes')
+    n_tm = 0
+    n_true = n_false = 0
+    for p in E.paths:
+        if p.ended not in ('return', 'cutoff'):
+            continue
+        tms = p.calls(lambda e: e['name'] == 'try_merge')
+        n_tm += len(tms)
+        failed = [e for e in tms if p.lookup(('discr', e['ret'])) == 0 or 1 in p.excluded(('discr', e['ret']))]
+        unknown = [e for e in tms if p.lookup(('discr', e['ret'])) is None and not p.excluded(('discr', e['ret']))]
+        ws = claim_map_writes(p)
+        for w in ws:
+            if w['kind'] == 'merged' and w['merge'] != 'try_merge':
+                once('no-try-merge', w['ln'], 'occupied entries must be merged with try_merge (conflict detection), not %s' % w['merge'])
+            if w['kind'] in ('overwrite', 'blind'):
+                once('no-try-merge', w['ln'], 'a claim entry is written without a checked merge of the claims already recorded for that archetype (%s)' % w['where'])
+        if p.ended != 'return':
+            continue
+        direct = [e for e in p.events if (e['k'] == 'call' and _is_claim_map_call(e) and e['name'] in INSERTERS + ('entry', 'get_mut', 'remove', 'clear', 'retain')
+                                            and pathsem.strip_refs(e['vals'][0]) in (param, ('d', param)))]
+        commits = [e for e in p.events if e['k'] == 'store' and e['loc'] == ('d', param)]
+        if p.ret == pathsem.TRUE:
+            n_true += 1
+            if failed:
+                once('conflict-not-refused', failed[0]['ln'], 'a failed try_merge (conflicting claims) does not make the function return false')
+            if unknown:
+                once('result-unchecked', unknown[0]['ln'], 'result of try_merge is not inspected')
+            ended = [a for a, v in p.conds if isinstance(a, tuple) and ((a[0] == 'next' and v == 0) or (a[0] == 'nonempty') or (a[0] == 'discr' and isinstance(a[1], tuple) and a[1][0] == 'call' and a[1][1].endswith('::next') and v == 0))]
+            if not ended:
+                once('true-before-all-checked', None, 'returns true before every claimed archetype has been checked')
+            if not commits and not direct:
+                once('no-commit', None, 'a path returns true without recording the task\'s claims in the caller\'s map')
+        elif p.ret == pathsem.FALSE:
+            n_false += 1
+            if commits or direct:
+                once('commit-on-conflict', (commits or direct)[0]['ln'], 'the caller\'s claim map is updated on a path that found a conflict')
+            if not failed:
+                once('false-without-conflict', None, 'returns false although no claim conflict was found on the path')
+        else:
+            once('result-shape', None, 'cannot see the boolean returned by a path (%s)' % pathsem.tstr(p.ret))
+    if not n_tm:
+        once('no-try-merge', None, 'occupied entries must be merged with try_merge (conflict detection)')
+    if not n_true or not n_false:
+        once('result-unchecked', None, 'expected paths returning true and paths returning false (found %d / %d)' % (n_true, n_false))
     return r
 
 
-INSERTERS = ('insert', 'insert_unique_unchecked', 'insert_with_hasher', 'insert_hashed_nocheck', 'insert_entry', 'or_insert', 'or_insert_with', 'try_insert', 'extend')
-
-
-@rule('S4', props=['C08', 'C07'], floor=3, configs=('all',))
+@rule('S4', props=['C08', 'C07'], floor=2, configs=('all',))
 def s4_claims_accumulate(prog):
-    """Every insertion into a claim map (HashMap keyed by archetype IdentifierRef, valued by claims) in
-    the schedule module either fills a vacant entry or stores a value merged from the occupied
-    entry's previous value; blind inserts (insert / insert_unique_unchecked) would drop or duplicate
-    the claims of a task that is still running."""
+    """Every write into a claim map (HashMap keyed by archetype IdentifierRef, valued by claims) in the
+    schedule module, on every CFG path, either fills an entry known to be vacant (VacantEntry::insert, or
+    insert after a get/get_mut/contains_key miss on the same key) or stores a value merged from the
+    occupied entry's previous value; blind inserts would drop or duplicate the claims of a task that is
+    still running."""
     r = Result()
     for f in prog.fns.values():
-        if not (f.path.startswith('system::schedule::') or '::system::schedule::' in f.path):
+        if f.kind == 'Closure' or not (f.path.startswith('system::schedule::') or '::system::schedule::' in f.path):
             continue
         body = f.body
-        for b, t in body.calls(lambda c: 'hashbrown' in c['path'] and c['name'] in INSERTERS):
-            # only claim maps: key type IdentifierRef
-            g = t['f']['args']
-            if not any(is_adt(x, 'archetype::identifier::IdentifierRef') for x in g):
-                continue
-            fp = t['f']['path']
-            r.inst('%s: %s' % (f.path.split('<')[0][:60], fp.split('::<')[0].split('::')[-1] + '::' + t['f']['name']))
-            key = '%s/%s' % (f.name, fp.split('hashbrown::')[-1].split('::<')[0] + '::' + t['f']['name'])
-            if 'VacantEntry' in fp and t['f']['name'] == 'insert':
-                continue
-            if 'OccupiedEntry' in fp and t['f']['name'] == 'insert':
-                # value must derive from a merge that read the entry's previous value
-                v = op_local(t['args'][1])
-                merges = [(mb, mt) for mb, mt in body.calls(lambda c: c['name'] in ('try_merge', 'merge_unchecked'))]
-                gets = [(gb, gt) for gb, gt in body.calls(lambda c: 'OccupiedEntry' in c['path'] and c['name'] in ('get', 'get_mut'))]
-                ok = False
-                for mb, mt in merges:
-                    if v in derived(body, {mt['dest']['l']}):
-                        # merge reads entry.get()
-                        gl = {gt['dest']['l'] for gb, gt in gets}
-                        argl = set()
-                        for a in mt['args']:
-                            l = op_local(a)
-                            if l is not None:
-                                argl.add(access_of_local(body, l).root)
-                        if gl & argl:
-                            ok = True
-                if not ok:
-                    r.viol('S4', key + '/overwrite-without-merge', f.loc(t['ln']), 'occupied claim entry overwritten with a value not merged from its previous claims: the running task\'s claims are lost')
-                continue
-            r.viol('S4', key + '/blind-insert', f.loc(t['ln']),
-                   'claim map insertion that neither targets a vacant entry nor merges with the existing claims (%s): claims of a task still running are dropped or shadowed by a duplicate key' % t['f']['name'])
+        def is_claim_map_ty(t):
+            return ty_mentions(t, lambda n: n.get('k') == 'adt' and n['path'].startswith('hashbrown::') and ty_mentions(n, lambda m: is_adt(m, 'archetype::identifier::IdentifierRef')))
+        muts = [l for l in body.locals if is_claim_map_ty(l['ty']) and (l['ty'].get('k') != 'ref' or l['ty'].get('mut'))]
+        if not any(is_claim_map_ty(l['ty']) and l['ty'].get('k') == 'ref' and l['ty'].get('mut') for l in body.locals[1:body.argc + 1]) \
+                and not any(True for g in [f] + f.closures() for _ in g.body.calls(lambda c: 'hashbrown' in c['path'] and c['name'] in INSERTERS + ('get_mut',)
+                                                                                   and any(is_adt(x, 'archetype::identifier::IdentifierRef') for x in c['args']))):
+            continue
+        E = pathsem.analyse(prog, f, max_paths=20000)
+        if E.truncated:
+            r.viol('S4', f.name + '/not-analysable', f.loc(), 'path enumeration cut off')
+            continue
+        seen = set()
+        for p in E.paths:
+            for w in claim_map_writes(p):
+                k = ('fn', f.path)
+                if k not in seen:
+                    seen.add(k)
+                    r.inst('%s: claim map writes on every path' % f.path.split('<')[0][:60])
+                key = '%s/%s' % (f.name, w['where'])
+                if w['kind'] == 'overwrite' and ('ow', key) not in seen:
+                    seen.add(('ow', key))
+                    r.viol('S4', key + '/overwrite-without-merge', f.loc(w['ln']), 'occupied claim entry overwritten with a value not merged from its previous claims: the running task\'s claims are lost')
+                if w['kind'] == 'blind' and ('bl', key) not in seen:
+                    seen.add(('bl', key))
+                    r.viol('S4', key + '/blind-insert', f.loc(w['ln']),
+                           'claim map insertion that neither targets a vacant entry nor merges with the existing claims (%s): claims of a task still running are dropped or shadowed by a duplicate key' % w['name'])
     return r
 
 
